@@ -218,6 +218,22 @@ class Canon(ast.NodeTransformer):
         return node
 
     def visit_Call(self, node: ast.Call):
+        # a NamedTuple of the package built in place is the tuple of its fields (equal to and hashing like the plain
+        # tuple: a typed spelling of a dict key)
+        if isinstance(node.func, (ast.Name, ast.Attribute)) and not any(isinstance(a, ast.Starred) for a in node.args) and all(kw.arg for kw in node.keywords):
+            c = self._repo_class(node.func, getattr(node, "_mod", None))
+            if c is not None and (any(isinstance(b, str) and b.split(".")[-1] == "NamedTuple" for b in c.bases) or any(norm(b).split(".")[-1] == "NamedTuple" for b in c.node.bases)):
+                flds = self.I.record_fields(c)
+                if flds is not None and len(node.args) <= len(flds):
+                    vals = dict(zip(flds, node.args))
+                    vals.update({kw.arg: kw.value for kw in node.keywords})
+                    for fl in flds:
+                        if fl not in vals:
+                            d_ = self.I.record_default(c, fl)
+                            if d_ is not None:
+                                vals[fl] = d_
+                    if all(fl in vals for fl in flds) and set(vals) == set(flds):
+                        return self.visit(ast.copy_location(ast.Tuple(elts=[copy.deepcopy(vals[fl]) for fl in flds], ctx=ast.Load()), node))
         h = self._getter(node)
         if h is not None and self.depth < 8:
             f, ret = h
